@@ -233,6 +233,7 @@ type ordResult struct {
 	isBool bool
 	b      bool
 	n      int64
+	multi  []ordResult // results of a multi-value return
 }
 
 // run interprets a statement list; returns (result, returned).
@@ -247,6 +248,17 @@ func (e *ordEval) run(list []ast.Stmt) (ordResult, bool) {
 		}
 		switch v := s.(type) {
 		case *ast.ReturnStmt:
+			if len(v.Results) > 1 {
+				var out ordResult
+				for _, re := range v.Results {
+					if b, ok := e.info.TypeOf(re).Underlying().(*types.Basic); ok && b.Info()&types.IsBoolean != 0 {
+						out.multi = append(out.multi, ordResult{isBool: true, b: e.evalBool(re)})
+					} else {
+						out.multi = append(out.multi, ordResult{n: e.evalInt(re)})
+					}
+				}
+				return out, true
+			}
 			if len(v.Results) != 1 {
 				e.fail("return with %d results", len(v.Results))
 				return ordResult{}, true
@@ -270,6 +282,40 @@ func (e *ordEval) run(list []ast.Stmt) (ordResult, bool) {
 				}
 			}
 		case *ast.AssignStmt:
+			// a, ok := helper(args): the helper is interpreted with its parameters bound
+			if len(v.Lhs) > 1 && len(v.Rhs) == 1 && e.callee != nil && e.depth < 4 {
+				if call, isCall := ast.Unparen(v.Rhs[0]).(*ast.CallExpr); isCall {
+					if params, body := e.callee(call); body != nil && len(params) == len(call.Args) {
+						sub := &ordEval{info: e.info, side: e.side, ord: e.ord, slices: e.slices, bools: map[string]bool{}, ints: map[types.Object]int64{}, callee: e.callee, depth: e.depth + 1}
+						for k, val := range e.ints {
+							sub.ints[k] = val
+						}
+						for k, val := range e.bools {
+							sub.bools[k] = val
+						}
+						for i, po := range params {
+							sub.ints[po] = e.evalInt(call.Args[i])
+						}
+						res, ret := sub.run(body.List)
+						if sub.err != "" || !ret || len(res.multi) != len(v.Lhs) {
+							e.fail("helper %s outside the fragment: %s", types.ExprString(call.Fun), sub.err)
+							return ordResult{}, true
+						}
+						for i, l := range v.Lhs {
+							id, isId := l.(*ast.Ident)
+							if !isId || id.Name == "_" {
+								continue
+							}
+							if res.multi[i].isBool {
+								e.bools[id.Name] = res.multi[i].b
+							} else {
+								e.ints[e.info.ObjectOf(id)] = res.multi[i].n
+							}
+						}
+						continue
+					}
+				}
+			}
 			if len(v.Lhs) == 1 && len(v.Rhs) == 1 {
 				if id, ok := v.Lhs[0].(*ast.Ident); ok {
 					// aliases of the operands (that := o.(*T)) are resolved by side(); integer locals evaluated
